@@ -45,6 +45,9 @@ def decorate(rng, sc):
         # the caller's context is cancelled right after the call returned (the release of locks by Done / Cancel / Commit is detached)
         if st.get("t") == "t1" and st["op"] in ("agg_done", "agg_cancel", "commit") and rng.random() < 0.5:
             st["cancel_after"] = True
+    if rng.random() < 0.03:
+        return with_lost_release(sc, rng, kind=rng.choice([None, None, "release_req", "release_resp"]), frm=rng.choice([0, 1, 2, 4]),
+                                 once=[(a, rng.choice(["dropreq", "dropresp"])) for a in sorted(rng.sample(range(0, 8), rng.choice([0, 1, 2, 3])))])
     if rng.random() < 0.35:
         # topology changes inside a request's window: 1-3 split keys right before the n-th request of a command type of t1's
         # client (the request was built for the old layout and is re-grouped into several batches)
@@ -344,6 +347,15 @@ def directed():
     out[-1]["txns"]["t7"] = {"mode": "2pc", "pessimistic": False, "ops": [], "client": "c1"}
     out[-1]["managed_ttl"] = 60
     out[-1]["extras"] = [{"what": "hold", "cmd": "Commit", "k": "k4", "until": "ResolveLock", "max_ms": 250}]
+    # lost release requests (store kept reachable so that the sender retries): lost once -> retried and released;
+    # response lost -> released; lost for good from the n-th release request on -> exactly those locks stay
+    base80 = lambda fin: B + [{"t": "t2", "op": "lock", "ks": ["k4"], "wait": -1}, L(["k1", "k2", "k3"]), L(["k5", "k4"]), A(fin), {"t": "t2", "op": "rollback"}]
+    out.append(with_lost_release(sc(80, base80("rollback"), splits=("k2", "k3", "k5")), once=((0, "dropreq"), (2, "dropresp"), (3, "dropreq"))))
+    out.append(with_lost_release(sc(81, base80("rollback"), splits=("k2", "k3", "k5")), kind="release_req", frm=3))
+    out.append(with_lost_release(sc(82, base80("commit"), splits=("k2", "k3", "k5")), kind="release_resp", frm=0))
+    out.append(with_lost_release(sc(83, B + [A("agg_start"), L(["k1"]), L(["k2"]), L(["k3"]), A("agg_retry"), L(["k2"]), A("agg_done"), A("commit"), {"t": "t2", "op": "rollback"}], splits=("k2", "k3")), kind="release_req", frm=1))
+    out.append(with_lost_release(sc(84, B + S4 + [{"t": "t2", "op": "set", "k": "k5", "v": "c"}, {"t": "t1", "op": "set", "k": "k5", "v": "e"}, {"t": "t2", "op": "commit"}, A("commit")], splits=("k2", "k3", "k5")), kind="release_req", frm=2))
+    out[-1]["txns"]["t1"]["pessimistic"] = False
     # several pessimistic-lock batches inside ONE region (batch limit of 2 key bytes = one key per batch; batches != regions):
     # a later batch fails with write conflict / key exists after earlier ones locked their keys -> all keys are rolled back
     out.append(sc(61, B + [A("fu_take"), {"t": "t2", "op": "set", "k": "k3", "v": "c"}, {"t": "t2", "op": "commit"}, L(["k1", "k2", "k3"], v="fu_saved"), A("rollback")]))
@@ -483,6 +495,8 @@ def run_model(mr, scs, res):
     for sc, r in zip(scs, res):
         if r.get("fatal"):
             continue
+        if lost_release(sc):
+            sc["_lost_keys"] = txnlab.locks_lost_keys(sc, r)
         lines, exp = txnlab.locks_replay_lines(sc, r)
         if not lines:
             continue
@@ -602,11 +616,52 @@ def side_oracles(sc, r, exp=None):
     return out[:3]
 
 
+def lost_release(sc):
+    return str(sc.get("black_kind") or "").startswith("release_") or any(str(f.get("kind", "")).startswith("release:") for f in sc.get("faults") or [])
+
+
+LIVE = {"t": "t1", "op": "failpoint", "k": "tikvclient/injectLiveness", "v": 'return("reachable")'}
+LIVE_OFF = {"t": "t1", "op": "failpoint", "k": "tikvclient/injectLiveness", "v": ""}
+
+
+def with_lost_release(sc, rng=None, kind=None, frm=0, once=()):
+    """turns a program into a lost-release scenario: the store stays reachable for the sender (so that it really retries),
+    and release requests of t1's client are lost once (`once`: indices among release requests) or for good from `frm` on"""
+    # (the failpoint stays on until the driver resets it before the next scenario: background retries may still be running)
+    sc["program"] = sc["program"][:2] + [dict(LIVE)] + sc["program"][2:]
+    sc.pop("extras", None)
+    sc["faults"] = [{"at": a, "kind": "release:" + k} for a, k in once]
+    if kind:
+        sc["black_from"], sc["black_kind"] = frm, kind
+    return sc
+
+
 def judge(v, sc, r, mres, counts):
     """oracle + correspondence verdict of one program; returns number of violations reported"""
     bad = leftovers(r)
     mbad, mleft, exp = mres if mres else ([], None, [])
     n = 0
+    if lost_release(sc) and mres is not None:
+        # release requests of t1 are lost (once: retried by the sender; for good: the retry budget runs out): a lock may stay
+        # exactly where the model says so — under a release that never completed (C06_leftover_only_under_unfinished_release);
+        # the model is told which keys' releases never reached the store and predicts the leftover set
+        counts["lost-release:programs"] = counts.get("lost-release:programs", 0) + 1
+        counts["lost-release:keys-lost-for-good"] = counts.get("lost-release:keys-lost-for-good", 0) + len(sc.get("_lost_keys") or [])
+        got = sorted(x["key"] for x in bad if x["txn"] == "t1")
+        others = [x for x in bad if x["txn"] != "t1"]
+        if not str(sc.get("black_kind") or "").startswith("release_") and sc.get("_lost_keys"):
+            # requests lost only once: the sender has to retry them (budget 20 s), nothing may count as lost for good
+            n += 1
+            v.violation({"kind": "property-oracle", "scenario": {k: w for k, w in sc.items() if k != "_lost_keys"}, "txns": r.get("txns"),
+                         "violated": [f"release requests naming {sc['_lost_keys']} were lost once and never sent again (locks left: {got})"]})
+        elif (not set(got) <= set(sc.get("_lost_keys") or []) if str(sc.get("black_kind") or "").startswith("release_") else got != (mleft or [])) or others:
+            # lost for good: a lock may stay only on a key whose release never reached the store after it was last locked (the
+            # action that met the loss gives up and does not send its remaining batches); lost once: nothing may stay
+            n += 1
+            v.violation({"kind": "property-oracle", "scenario": {k: w for k, w in sc.items() if k != "_lost_keys"}, "steps": [{k: w for k, w in s.items() if k != "bk"} for s in r.get("steps", [])],
+                         "txns": r.get("txns"), "model_vs_client": mbad[:5], "lost_keys": sc.get("_lost_keys"),
+                         "violated": [f"with lost release requests the locks left by t1 are {got}; the model (locks under releases that never completed) predicts {mleft}; other transactions: {others}"]})
+        bad = []
     if bad:
         n += 1
         v.violation({"kind": "property-oracle", "scenario": sc, "steps": [{k: w for k, w in s.items() if k != "bk"} for s in r.get("steps", [])],
@@ -620,7 +675,7 @@ def judge(v, sc, r, mres, counts):
                      "txns": r.get("txns"), "violated": so, "model_vs_client": mbad[:5]})
     if mres is not None:
         lo1 = sorted(x["key"] for x in bad if x["txn"] == "t1")
-        allbad = list(mbad) + ([f"final lock set of t1: model={mleft} audit={lo1}"] if mleft != lo1 else [])
+        allbad = list(mbad) + ([f"final lock set of t1: model={mleft} audit={lo1}"] if mleft != lo1 and not lost_release(sc) else [])
         if allbad:
             counts["model_disagree"] = counts.get("model_disagree", 0) + 1
             if not bad and not so and counts["model_disagree"] <= 3:
